@@ -28,7 +28,8 @@ META = dict(
     cfg_budget_s=dict(quick=240, thorough=900),
 )
 
-FIXED_REFS = [[(0, 4), (10, 15)], [(0, 10), (2, 5)], [(1, 2), (2, 3)]]
+FIXED_REFS = [[(0, 4), (10, 15)], [(0, 10), (2, 5)], [(1, 2), (2, 3)], [(0, 8), (2, 10)]]
+SAME_LABEL_REFS = {3}       # references whose units all carry the same label (two long overlapping units of one category)
 FLAGS = ["shift", "false_pos", "false_neg", "cat_shuffle", "split"]
 
 
@@ -78,8 +79,9 @@ def harness(cfg, ns):
         if kind == "fixed":
             for k, (a, b) in enumerate(FIXED_REFS[arg]):
                 st, en = core.const(a), core.const(b)
-                ref.add("ref", Segment(st, en), "xy"[k % 2])
-                runits.append((st, en, "xy"[k % 2]))
+                lab_ = "x" if arg in SAME_LABEL_REFS else "xy"[k % 2]
+                ref.add("ref", Segment(st, en), lab_)
+                runits.append((st, en, lab_))
         else:
             prev = None
             for k in range(arg):
@@ -125,8 +127,10 @@ def harness(cfg, ns):
         ADDS = []
         orig_add = co.Continuum.add
 
+        CUR = [None, None]      # perturbation running now, units it was given
+
         def spy_add(self, annotator, segment, annotation=None):
-            ADDS.append((annotator, segment.start, segment.end, annotation))
+            ADDS.append((annotator, segment.start, segment.end, annotation, CUR[0], CUR[1]))
             return orig_add(self, annotator, segment, annotation)
         co.Continuum.add = spy_add
         STEPS = []          # (perturbation name, snapshot before, snapshot after) for every perturbation that ran, in order
@@ -142,7 +146,11 @@ def harness(cfg, ns):
             def wrapper(self_, continuum, *a, _o=orig_m, _n=nm, **k):
                 before = snap_units(continuum)
                 mag = self_.magnitude
-                r_ = _o(self_, continuum, *a, **k)
+                CUR[0], CUR[1] = _n, before
+                try:
+                    r_ = _o(self_, continuum, *a, **k)
+                finally:
+                    CUR[0], CUR[1] = None, None
                 STEPS.append((_n, before, snap_units(continuum), mag))
                 return r_
             setattr(cst.CorpusShufflingTool, meth, wrapper)
@@ -170,11 +178,25 @@ def harness(cfg, ns):
                                                    for x in runits])) if us else False, rz))
             return o2
         # known-finding regions (see known_findings.json)
+        unis = [lift(r[3]) for r in rng.log if r[0] == "uniform" and not isinstance(r[1], SymNum) and not isinstance(r[2], SymNum) and r[1] == -1 and r[2] == 1]
+        shift_max = lift(m * cst.CorpusShufflingTool.SHIFT_FACTOR * ref.avg_length_unit)
+
+        def documented_shift(w_):
+            given = [u_ for u_ in (w_[5] or {}).get(w_[0], []) if u_[2] == w_[3]]
+            alts = [z3.And(lift(w_[1]) == lift(g[0]) + d1 * shift_max, lift(w_[2]) == lift(g[1]) + d2 * shift_max) for g in given for d1 in unis for d2 in unis]
+            return z3.Or(*alts) if alts else z3.BoolVal(False)
         pairs = []
         for i1, x in enumerate(ADDS):
             for y in ADDS[i1 + 1:]:
                 if x[0] == y[0] and x[3] == y[3]:
-                    pairs.append(z3.And(lift(x[1]) == lift(y[1]), lift(x[2]) == lift(y[2])))
+                    both = [lift(x[1]) == lift(y[1]), lift(x[2]) == lift(y[2])]
+                    # the recorded finding is an exact coincidence of CONTINUOUS draws: for units produced by the shifting step the
+                    # region also demands that each of the two is a unit it was given, moved by the documented amounts (a draw of
+                    # uniform(-1, 1) times shift_max at either end) - a coincidence manufactured in any other way is a new violation
+                    for w_ in (x, y):
+                        if w_[4] == "shift":
+                            both.append(documented_shift(w_))
+                    pairs.append(z3.And(*both))
         coincide = z3.Or(*pairs) if pairs else z3.BoolVal(False)
         short = []
         for rec in rng.log:
